@@ -45,7 +45,7 @@ class Ctx:
         self.inputs.append((name, "real"))
         if self.sym:
             return real(name)
-        v = self.values[name]
+        v = self.values.get(name, "0") if getattr(self, "missing_as_zero", False) else self.values[name]
         return float(F(v))
 
     def int(self, name, lo=None, hi=None):
@@ -57,7 +57,7 @@ class Ctx:
             if hi is not None:
                 self.assume(x <= hi)
             return x
-        v = int(F(self.values["i:" + name]))
+        v = int(F(self.values.get("i:" + name, lo if lo is not None else 0) if getattr(self, "missing_as_zero", False) else self.values["i:" + name]))
         if (lo is not None and v < lo) or (hi is not None and v > hi):
             raise OutOfDomain(name)
         return v
